@@ -9,6 +9,7 @@ import (
 	"github.com/ddddddO/gtree"
 	"github.com/fatih/color"
 
+	"verifharness/fsx"
 	"verifharness/model"
 	"verifharness/rep"
 	"verifharness/sut"
@@ -22,6 +23,20 @@ type hop struct {
 	T    int    `json:"t"`
 	Node int    `json:"node,omitempty"`
 	Name string `json:"name,omitempty"`
+}
+
+var c13Jail *fsx.Jail
+
+func hasInvalidName(n *model.Node) bool {
+	if n.Name == "" || n.Name == "." || n.Name == ".." || strings.Contains(n.Name, "/") {
+		return true
+	}
+	for _, k := range n.Kids {
+		if hasInvalidName(k) {
+			return true
+		}
+	}
+	return false
 }
 
 func (h hop) String() string {
@@ -88,7 +103,20 @@ func (w *c13World) observe(k string, t int) (got, want string, pan string) {
 		p := sut.Guard(func() { err = gtree.MkdirFromRoot(root, gtree.WithDryRun(), gtree.WithFileExtensions([]string{"b"})) })
 		color.Output = old
 		d, f := model.Counts(m, []string{"b"})
+		if hasInvalidName(m) {
+			// dry run validates names: an error and no report, whatever happened before
+			return fmt.Sprintf("%q err!=nil:%v", buf.String(), err != nil), `"" err!=nil:true`, p
+		}
 		return fmt.Sprintf("%q err=%v", buf.String(), err), fmt.Sprintf("%q err=<nil>", model.RenderRoot(m, model.DefaultFmt)+fmt.Sprintf("\n%d directories, %d files\n", d, f)), p
+	case "V":
+		// verify against an empty directory: always "root missing" for valid names, a name error otherwise; never nil
+		if c13Jail == nil {
+			c13Jail = fsx.NewJail("c13") // one empty directory per process: verify never changes it (C08)
+		}
+		j := c13Jail
+		var err error
+		p := sut.Guard(func() { err = gtree.VerifyFromRoot(root, gtree.WithTargetDir(j.Target)) })
+		return fmt.Sprintf("err!=nil:%v", err != nil), "err!=nil:true", p
 	}
 	panic("unknown observation " + k)
 }
@@ -168,6 +196,7 @@ func init() {
 		c.Bound("history_length", fmt.Sprint(maxL))
 		c.Bound("nodes_per_tree", fmt.Sprint(maxNodes))
 		obs := []string{"T", "W", "J", "D", "F"}
+		addNames := []string{"a", "b", "x/y"} // "x/y" is a legal node name for output and walk, invalid for mkdir/verify
 		// kids[t][node][name] tracks which Adds create nodes, so node indices are exact
 		type st struct {
 			size [2]int
@@ -214,7 +243,10 @@ func init() {
 					continue
 				}
 				for n := 0; n < s.size[t]; n++ {
-					for _, nm := range []string{"a", "b"} {
+					for _, nm := range addNames {
+						if nm == "x/y" && (len(hist) > 3 || t == 1) {
+							continue // the hostile name only early and on tree 0 (keeps the space within budget)
+						}
 						h := hop{K: "A", T: t, Node: n, Name: nm}
 						if s.kids[t][n][nm] {
 							rec(append(hist, h), s, L) // re-Add of an existing name
@@ -232,7 +264,7 @@ func init() {
 					}
 				}
 				// operations in the middle of a history (they reset library-internal state)
-				for _, k := range []string{"T", "W", "D"} {
+				for _, k := range []string{"T", "W", "D", "V"} {
 					rec(append(hist, hop{K: k, T: t}), s, L)
 				}
 			}
@@ -244,6 +276,9 @@ func init() {
 			rec(nil, &st{}, L)
 		}
 		c.R.Nontrivial = c.R.States
+		if c13Jail != nil {
+			c13Jail.Remove()
+		}
 	}
 	replayers["c13"] = func(raw json.RawMessage) bool {
 		var r c13Replay
@@ -258,5 +293,4 @@ func init() {
 		}
 		return len(c.R.ViolCount) > 0
 	}
-	_ = strings.Join
 }
